@@ -88,6 +88,7 @@ type Rec struct {
 	Ts, Exp    int64  // merge: the delivered entry's timestamp and expiry
 	Suppressed []bool // flush: per alert, the instance's own mute verdict (inhibitor or silencer) at flush time
 	Silenced   []bool // flush: per alert, the silence part of that verdict (direct evaluation of the stored active silences)
+	Inhibited  []bool // flush: per alert, the inhibitor's own Mutes verdict
 }
 
 type Sim struct {
@@ -293,14 +294,16 @@ func (st *recStage) Exec(ctx context.Context, l *slog.Logger, alerts ...*alert.A
 	}
 	sup := make([]bool, len(alerts))
 	sild := make([]bool, len(alerts))
+	inhd := make([]bool, len(alerts))
 	for i, a := range alerts {
 		// inhibition: the instance's own verdict (C03 decides whether it is right), on a detached context so that no
 		// marker is touched; silences: direct evaluation of the stored active silences (side-effect free)
 		sils, _, _ := st.s.Silences.Query(context.Background(), silence.QState(silence.SilenceStateActive), silence.QMatches(a.Labels))
 		sild[i] = len(sils) > 0
-		sup[i] = st.s.Inhibitor.Mutes(context.Background(), a.Labels) || sild[i]
+		inhd[i] = st.s.Inhibitor.Mutes(context.Background(), a.Labels)
+		sup[i] = inhd[i] || sild[i]
 	}
-	st.s.add(Rec{Kind: "flush", GKey: gkey, Recv: recv, Tau: now.UnixNano(), Alerts: obs, FlushID: fid, Suppressed: sup, Silenced: sild})
+	st.s.add(Rec{Kind: "flush", GKey: gkey, Recv: recv, Tau: now.UnixNano(), Alerts: obs, FlushID: fid, Suppressed: sup, Silenced: sild, Inhibited: inhd})
 	c, as, err := st.inner.Exec(ctx, l, alerts...)
 	st.s.add(Rec{Kind: "flushend", GKey: gkey, Recv: recv, Ok: err == nil, FlushID: fid})
 	return c, as, err
